@@ -428,6 +428,31 @@ def frame_obligations(run, entry, descs, roots, props):
                 run.emit('frame', z3.BoolVal(False), nm + '(list mutated)', props=props)
 
 
+def caller_owned_stores(run, entry, descs, roots, props):
+    """C18: a container the caller passed in (any parameter but self) must not even be *stored into* - a store that keeps
+    the abstract value (the same numbers as a new array in place of the caller's list) still changes the caller's object.
+    The heap is functional: an object that was replaced was written."""
+    st = run.st
+    names = loc_names(entry, roots)
+    covered = set()
+    for d in descs:
+        if d[0] == 'deep':
+            covered |= reachable(entry, d[1])
+        elif len(d) > 1 and isinstance(d[1], int):
+            covered.add(d[1])
+    for loc, o0 in entry.heap.items():
+        nm = names.get(loc)
+        if nm is None or loc in covered:
+            continue
+        root = nm.split('.')[0].split('[')[0]
+        if root == 'self' or root not in roots:
+            continue
+        o1 = st.heap.get(loc)
+        if o1 is None or o1 is o0 or not isinstance(o0, (MapO, SeqO, IMapO, ListO, SymListO)):
+            continue
+        run.emit('frame', z3.BoolVal(False), '%s(stored into a container of the caller)' % nm, props=props)
+
+
 def _same_val(v0, v1):
     if v0 is v1:
         return z3.BoolVal(True)
